@@ -371,8 +371,9 @@ pub fn c03_k_filtered_params_serialize_length() {
     kani::assume(n <= 2);
     let mut i = 0;
     while i < n {
-        let a: bool = kani::any();
-        v.push(KnownPublicKeyCredentialParameters { alg: if a { ES256 } else { ED_DSA } }).ok();
+        // the `alg` field and the wrapped Vec are public: any i32 can be in here
+        let a: i32 = kani::any();
+        v.push(KnownPublicKeyCredentialParameters { alg: a }).ok();
         i += 1;
     }
     let f = FilteredPublicKeyCredentialParameters(v);
